@@ -70,6 +70,22 @@ CLAIMED = {
         "PeriodIndex; overlapping anomalies are outside the property's domain (valid sparse outputs).",
         "TLA+ state machine input->dense->back checked with TLC + exhaustive replay + trace validation",
     ),
+    "C08": (
+        "7/C08",
+        "MovingWindowDefs.tla, MovingWindow.tla, Trace_MovingWindow.tla",
+        "TLC checks the window construction, the where() scan automaton (one action per loop iteration, "
+        "with its scan invariant) and the arg-max per run against the set-theoretic definition of maximal "
+        "runs and peaks, plus time reversal, for every score table / half-integer threshold / "
+        "min_detection_interval within the constants; each case is replayed through the module functions "
+        "and the MovingWindow class with a table change score keyed by the exact cut (t-b, t, t+b) (any "
+        "other window scores a hash value and shows in transform_scores), also on the reversed table; "
+        "recorded runs with CUSUM and cost-based scores on lattice data and on the reversed series are "
+        "validated by TLC (Trace_MovingWindow).",
+        "Bounded: exhaustive tables for n<=9/10, b<=3/4, values 0..3; sampled built-in scores n<=35; runs "
+        "whose score is within tol*unit of the threshold are not judged; class-level min_detection_interval>1 "
+        "only in stage C (constructor requires bandwidth>=6).",
+        "TLA+ scan-automaton model checked with TLC + spec-to-code replay + trace validation",
+    ),
 }
 
 NOT_YET = {}
